@@ -69,6 +69,7 @@ func genHpackTables(repo string) (string, error) {
 //	h2_cont_advance             mhttp2.go readMetaFrame: the recursive ReadFrame call reads at `off+msize` (true) or at `off` (false)
 //	h2_client_settings_wakes    mhttp2.go MClientConn.processSettings: contains a call cc.cond.Broadcast()
 //	h2_write_chunk              mhttp2.go MFramer.writeData: const maxFrameSize
+//	h2_hpack_multi_update       hpack.go Decoder.Write: `d.firstField = false` in the parse loop is guarded by `if !sizeUpdate` (true) or unconditional (false)
 func genH2Src(repo string) (string, error) {
 	var b strings.Builder
 	b.WriteString("From Coq Require Import NArith ZArith.\n")
@@ -191,6 +192,47 @@ func genH2Src(repo string) (string, error) {
 		chunk = "16384"
 	}
 	fmt.Fprintf(&b, "Definition h2_write_chunk : Z := %s%%Z.\n", chunk)
+	// --- hpack Decoder.Write
+	_, hf, err := ParseGoFile(repo, "pkg/module/http2/hpack/hpack.go")
+	if err != nil {
+		return "", err
+	}
+	multi := ""
+	isFirstFalse := func(st ast.Stmt) bool {
+		as, isAs := st.(*ast.AssignStmt)
+		if !isAs || len(as.Lhs) != 1 || len(as.Rhs) != 1 {
+			return false
+		}
+		sel, isSel := as.Lhs[0].(*ast.SelectorExpr)
+		id, isId := as.Rhs[0].(*ast.Ident)
+		return isSel && isId && sel.Sel.Name == "firstField" && id.Name == "false"
+	}
+	if fd := FindFunc(hf, "Decoder", "Write"); fd != nil {
+		ast.Inspect(fd.Body, func(n ast.Node) bool {
+			fs, isFor := n.(*ast.ForStmt)
+			if !isFor {
+				return true
+			}
+			for _, st := range fs.Body.List {
+				if isFirstFalse(st) {
+					multi = "false"
+				}
+				if is, isIf := st.(*ast.IfStmt); isIf && is.Else == nil && len(is.Body.List) == 1 && isFirstFalse(is.Body.List[0]) {
+					if u, isU := is.Cond.(*ast.UnaryExpr); isU && u.Op == token.NOT {
+						if id, isId := u.X.(*ast.Ident); isId && id.Name == "sizeUpdate" {
+							multi = "true"
+						}
+					}
+				}
+			}
+			return true
+		})
+	}
+	if multi == "" {
+		ok = false
+		multi = "false"
+	}
+	fmt.Fprintf(&b, "Definition h2_hpack_multi_update := %s.\n", multi)
 	fmt.Fprintf(&b, "Definition H2Src_translator_ok := %v.\n", ok)
 	return b.String(), nil
 }
